@@ -17,6 +17,9 @@ Binding to the code
           counted, never a violation.
   non-Clifford / unsupported gates: must be rejected (an exception; DeviceError is the documented class) or give the exact values.
   samples (partial, statistical): G-test of sample / counts / probs / expval with shots against TLC's exact probabilities.
+  finite-shot expval / var of MULTI-TERM observables (Sum / Hamiltonian / Hermitian = linear combinations of Pauli words, 'lc' of a case):
+          TLC decides per combination the exact value, whether every term is +-(a stabilizer) (then every shot of every term is
+          deterministic: any estimate must equal the exact value, and the variance must be 0) and otherwise the deviation bound.
 """
 import itertools
 import json
@@ -210,6 +213,29 @@ def group_words_of(rows, n, rng, k=6):
     return out
 
 
+def enc_lc(lcs):
+    """linear combinations [(quarters, word), ...] -> TLC records [c, s, pw] (coefficient = (-1)^s c/4)"""
+    return [[{"c": abs(q), "s": 1 if q < 0 else 0, "pw": list(pw)} for q, pw in terms] for terms in lcs]
+
+
+def rand_lincombs(rng, n, group_words):
+    """two linear combinations of >= 2 distinct Pauli words (coefficients in quarters): the first from the reported stabilizer group
+    (TLC decides the signs; deterministic shots), the second mixed with random words (mostly fair coins)"""
+    out = []
+    for k in range(2):
+        terms, seen = [], set()
+        for _ in range(rng.randint(2, 4) * 3):
+            pw = rng.choice(group_words) if group_words and (k == 0 or rng.random() < 0.5) else rand_word(rng, n)
+            if tuple(pw) not in seen and len(terms) < 4:
+                seen.add(tuple(pw))
+                terms.append((rng.choice([1, 2, 3, 4, 6, 8]) * rng.choice([1, -1]), list(pw)))
+        out.append(terms)
+    return out
+
+
+# controls of the finite-shot decision on H(1) CNOT(1,2) (XX = ZZ = +1, YY = -1, ZI = 0): (terms, num, loose, det)
+LC_CONTROLS = [([(2, [1, 1]), (-3, [3, 3]), (1, [2, 2])], -2, 0, True), ([(4, [3, 0]), (2, [1, 1]), (-1, [0, 1])], 2, 5, False)]
+
 NEG = [  # hand-written trace records for H(1) CNOT(1,2): (stabilizer rows as (x, z, r)), expected verdict, expected eq flag
     ("correct", [([1, 1], [0, 0], 0), ([0, 0], [1, 1], 0)], "ok", True),
     ("other-generators", [([1, 1], [1, 1], 1), ([0, 0], [1, 1], 0)], "ok", False),            # -YY = XX.ZZ
@@ -226,7 +252,7 @@ def neg_cases():
     for _, stabs, _, _ in NEG:
         rows = [{"x": [0, 0], "z": [1, 0], "r": 0}, {"x": [0, 1], "z": [0, 0], "r": 0}] + [{"x": x, "z": z, "r": r} for x, z, r in stabs]
         out.append({"n": 2, "sv": 1, "ops": [mk("Hadamard", 0, [1]), mk("CNOT", 0, [1, 2])], "meas": [{"t": "expval", "pw": [1, 1], "w": []}],
-                    "dev": {"has": 1, "rows": rows}})
+                    "dev": {"has": 1, "rows": rows}, "lc": enc_lc([t for t, _, _, _ in LC_CONTROLS])})
     return out
 
 
@@ -388,6 +414,8 @@ def run(tier, seed):
     lap("pairs")
     # ------------------------------------------------------------ seeded random circuits
     n_small, n_wide, n_idle = (150, 40, 8) if quick else (2500, 500, 40)
+    n_lc = 60 if quick else 600            # random cases that also get finite-shot linear combinations
+    rng_lc = random.Random(7100 + seed)
     for i in range(n_small):
         n = rng.choice([1, 2, 2, 3, 3, 3, 4, 4, 5, 5])
         ops = touch_all([rgate(n) for _ in range(rng.randint(1, 14))], n)
@@ -398,6 +426,8 @@ def run(tier, seed):
         if not exec_case(c):
             V.add(f"exception:{type(c['exc']).__name__}", f"{type(c['exc']).__name__}: {c['exc']} on {describe(c)}", {"ops": c["ops"]})
             cases.pop()
+        elif i < n_lc:
+            c["lc"] = rand_lincombs(rng_lc, n, group_words_of(c["rows"], n, rng_lc))
     for i in range(n_wide):
         n = rng.randint(6, 10)
         ops = touch_all([rgate(n) for _ in range(rng.randint(10, 40))], n)
@@ -424,11 +454,11 @@ def run(tier, seed):
         req, idx = requests(c["meas"] + [("state",)], c["sv"])
         c["idx"] = idx
         tcases.append({"n": c["n"], "sv": c["sv"], "ops": c["ops"], "meas": req or [{"t": "expval", "pw": [3] + [0] * (c["n"] - 1), "w": []}],
-                       "dev": {"has": 1 if c["rows"] else 0, "rows": c["rows"] or []}})
+                       "dev": {"has": 1 if c["rows"] else 0, "rows": c["rows"] or []}, "lc": enc_lc(c.get("lc", []))})
         owner.append((ci, "main"))
         if c["alt"] is not None and c["alt"] != c["rows"]:
             tcases.append({"n": c["n"], "sv": 0, "ops": c["ops"], "meas": [{"t": "expval", "pw": [3] + [0] * (c["n"] - 1), "w": []}],
-                           "dev": {"has": 1, "rows": c["alt"]}})
+                           "dev": {"has": 1, "rows": c["alt"]}, "lc": []})
             owner.append((ci, "alt"))
     first_neg = len(tcases)
     tcases += neg_cases()
@@ -440,6 +470,9 @@ def run(tier, seed):
         if got["dev"] != want or (want == "ok" and got["flags"]["eq"] != eq) or got["self"] != "ok":
             raise lib.MachineryError(f"trace control '{name}': expected verdict {want} (eq={eq}), TLC said {got['dev']} {got['flags']} self={got['self']}")
         nneg += want != "ok"
+        for (_, num, loose, det), g in zip(LC_CONTROLS, got["lc"]):
+            if (g["num"], g["loose"], g["det"]) != (num, loose, det):
+                raise lib.MachineryError(f"finite-shot control: expected {(num, loose, det)}, TLC said {g}")
     alt_ok = {owner[k][0]: res[k]["dev"] for k in range(first_neg) if owner[k][1] == "alt"}
     n_cmp, nontriv, samples, n_self = 0, set(), [], 0
     for k in range(first_neg):
@@ -549,6 +582,11 @@ def run(tier, seed):
     # ------------------------------------------------------------ samples (statistical, partial)
     n_stat = sampling(V, cases, res, owner, first_neg, rng, seed, quick)
     lap("sampling")
+    lc_stats = shots_lincomb(V, cases, res, owner, first_neg, seed)
+    n_stat += lc_stats["evaluations"]
+    lap("shots-lincomb")
+    if lc_stats["deterministic_multiterm_expval"] < 20 or lc_stats["deterministic_var"] < 10 or lc_stats["statistical_expval"] < 10:
+        raise lib.MachineryError(f"vacuous finite-shot linear combinations: {lc_stats}")
 
     if counts["exp_pm1"] < 50 or counts["tableau_validated"] < 100 or counts["wide_cases"] < 10:
         raise lib.MachineryError(f"vacuous: {counts}")
@@ -561,12 +599,15 @@ def run(tier, seed):
                    "Hamiltonians, probabilities, projectors, state vector) agreed",
            "samples": samples, "exhaustive": True, "model_self_checks_ok": n_self, "negative_controls_rejected": nneg + 1,
            "statistical_tests": n_stat, "nonclifford_cases": nc, "tlc_wall_s": round(tr.wall_s, 1), "python_cpu_s_by_phase": phase, "ring_level_M": M, **counts,
+           "finite_shot_linear_combinations": lc_stats,
            "violation_counts_by_key": V.seen}
     return CheckResult(coverage=cov, violations=V.viol, assumptions=[
         "exact comparison of tableaus (integers, decided by TLC); expectation values at 1e-8 (tableau=True) / 2e-6 (tableau=False: stim returns a "
         "float32 state vector); state vectors are compared up to a global phase",
         "a gate of the table that the device rejects with DeviceError counts as 'rejected' (documented policy), any other exception is a violation",
         "sampling clause: G-test at significance 1e-9 with one independent retry at 10x shots (partial)",
+        "finite-shot expval of a linear combination with fair-coin terms: |estimate - exact| <= 6.5 * sum|c_i| / sqrt(shots) over those terms "
+        "(valid for any correlation between the terms' samples), one retry at 10x shots; with only deterministic terms: equality at 1e-8, var = 0",
         "qp.probs() without wires is not exercised (its wire order without device wires is a convention, not part of the statement)"])
 
 
@@ -613,6 +654,85 @@ def noncliff(V, counts, seed):
     if not out["rejected"]:
         raise lib.MachineryError("vacuous: no non-Clifford input was rejected")
     return stats, len(items)
+
+
+# ------------------------------------------------------------------------------------------------- finite-shot linear combinations
+PAULI = {0: np.eye(2), 1: np.array([[0, 1], [1, 0]]), 2: np.array([[0, -1j], [1j, 0]]), 3: np.diag([1.0, -1.0])}
+
+
+def lc_observable(form, terms, labels):
+    co = [q / 4 for q, _ in terms]
+    if form == "hermitian":
+        mat = 0
+        for x, (_, pw) in zip(co, terms):
+            k = np.array([[1.0]])
+            for l in pw:
+                k = np.kron(k, PAULI[l])
+            mat = mat + x * k
+        return qp.Hermitian(mat, wires=labels)
+    obs = [devsim.word_op(pw, labels) for _, pw in terms]
+    return qp.Hamiltonian(co, obs) if form == "hamiltonian" else qp.dot(co, obs)
+
+
+def shots_lincomb(V, cases, res, owner, first_neg, seed):
+    """expval / var with shots of multi-term observables against TLC's decision (res[k]['lc'])"""
+    st = {"evaluations": 0, "deterministic_multiterm_expval": 0, "deterministic_var": 0, "statistical_expval": 0, "retries": 0,
+          "single_term": 0, "by_form": {}, "negative_control": 0}
+    shots, z = 2000, 6.5
+    for k in range(first_neg):
+        ci, kind = owner[k]
+        c = cases[ci]
+        if kind != "main" or not c.get("lc"):
+            continue
+        labels, n = c["labels"], c["n"]
+        for li, (terms, d) in enumerate(zip(c["lc"], res[k]["lc"])):
+            if d["nterms"] != len(terms):
+                raise lib.MachineryError("linear combination lost terms on the way through TLC")
+            exact, loose, det = d["num"] / 4, d["loose"] / 4, d["det"]
+            forms = ["sum", "hamiltonian", "hermitian" if n <= 3 else "sum"]
+            form = forms[(ci + li) % 3]
+            obs_txt = " + ".join(f"{q / 4:g}*{''.join('IXYZ'[l] for l in pw)}" for q, pw in terms)
+            ctx = f"{obs_txt} ({form}) on {describe(c)}"
+            rp = {"ops": c["ops"], "labels": labels, "terms": [[q, pw] for q, pw in terms], "form": form, "shots": shots}
+
+            def once(mp, sd, sh):
+                dev = qp.device("default.clifford", seed=sd, **({"wires": labels} if c["devwires"] else {}))
+                o, _ = run_tape(c["plops"], [mp(lc_observable(form, terms, labels))], dev, shots=sh)
+                return float(np.real(np.asarray(o)))
+            for mpname, mp in (("expval", qp.expval), ("var", qp.var)):
+                if mpname == "var" and (not det or form == "hermitian"):
+                    continue          # the exact variance of a non-eigenstate is not decided by the model; Hermitian**2 has no Pauli form
+                want = exact if mpname == "expval" else 0.0
+                cls = "deterministic" if det else "statistical"
+                try:
+                    got = once(mp, 3000 + seed + 31 * ci + li, shots)
+                except Exception as e:  # noqa: BLE001
+                    V.add(f"shots:{mpname}-lincomb:{form}:exception:{type(e).__name__}", f"{type(e).__name__}: {e} for {ctx}", rp)
+                    continue
+                st["evaluations"] += 1
+                st["by_form"][form] = st["by_form"].get(form, 0) + 1
+                bound = lambda sh: 1e-8 + z * loose / np.sqrt(sh)
+                bad = not abs(got - want) <= bound(shots)
+                if bad and not det:
+                    st["retries"] += 1
+                    got = once(mp, 880001 + seed + 31 * ci + li, 10 * shots)
+                    bad = not abs(got - want) <= bound(10 * shots)
+                if len(terms) < 2:
+                    st["single_term"] += 1
+                elif det:
+                    st["deterministic_multiterm_expval" if mpname == "expval" else "deterministic_var"] += 1
+                else:
+                    st["statistical_expval"] += 1
+                if det and not st["negative_control"]:
+                    # comparator control: the value with the sign of one term flipped must be rejected
+                    if abs((want + 2 * abs(terms[0][0]) / 4) - want) <= bound(shots):
+                        raise lib.MachineryError("negative control accepted (finite-shot linear combination)")
+                    st["negative_control"] = 1
+                if bad:
+                    V.add(f"shots:{mpname}-lincomb:{cls}-mismatch",
+                          f"{mpname} with shots of {ctx}: got {got:.6f}, exact {want:.6f} "
+                          + ("(every term is +-(a stabilizer): every shot is deterministic)" if det else f"(tolerance {bound(10 * shots):.4f} at {10 * shots} shots)"), rp)
+    return st
 
 
 # ------------------------------------------------------------------------------------------------- sampling (statistical)
